@@ -1,9 +1,12 @@
 from check import run_diff_property
+import lib
 
 CFG = dict(
-    streams=[('ja4', 3000, 40000)],
-    oracle_ops={'ja4spec'},
-    ops_filter={'ser', 'ja4', 'ja4spec'},
+    streams=[('ja4', 3000, 40000), ('e2e', 150, 2500)],
+    oracle_ops={'ja4spec', 'e2e'},
+    twophase_ops={'e2e'},
+    project={'e2e': lib.proj_e2e({'ja4', 'st'})},
+    ops_filter={'ser', 'ja4', 'ja4spec', 'e2e'},
     rule=("structured well-formed ClientHellos (cipher/extension lists 0..130 with GREASE forced first/last/only/all, known "
           "extension types with bodies utls accepts, unknown types with random bodies, supported_versions with GREASE / only "
           "GREASE, signature_algorithms with GREASE inserted, ALPN of 1/2/3+ bytes and non-ASCII, padding, no-extension hellos) "
